@@ -1,7 +1,9 @@
-(* PV.C12.Refuted — counter-models: one per guard conjunct that exists because the CODE fails.
-   All witnesses live over the [strG] engine (symbolic leaves are their srepr texts), which
-   satisfies the engine assumptions (Proofs.strG_ok); each was reproduced on the real code
-   (known_findings.d/C12.json holds the matching inputs). *)
+(* PV.C12.Refuted — counter-models for the guards that still exist because the CODE fails (open
+   findings C12-DERIVATIVES-TEXT, C12-JSON-INTKEY, C12-HASH-DEPVAR-ORDER, C12-SREPR-DISTRIBUTES), and
+   regression Examples of the repaired behaviour for the findings fixed in /repo (C12-HASH-ORDER
+   ddb8814, C12-JSON-TUPLE cee2988, C12-CATEGORIES-MAPPING e582408, C12-GENERIC-READ 30e26dc, and
+   C05-EQ-RAISES-NO-DOSE 876afb2): their former witnesses, now satisfying the property.
+   All witnesses live over the [strG] engine (symbolic leaves are their srepr texts). *)
 From Coq Require Import QArith ZArith List Bool Arith String.
 From PV Require Import C12.Model C12.Proofs C12.Check.
 Import ListNotations.
@@ -36,34 +38,24 @@ Definition model_of (st : list (stmt strG)) (es : list (step strG)) (di : datain
 Definition M_cp : model strG := model_of [SOde strG sys_cp] [] no_di None.
 Definition M_pc : model strG := model_of [SOde strG sys_pc] [] no_di None.
 
-(* ---- C12-HASH-ORDER: equal content, different key ---- *)
-(* two well-formed systems that == calls equal have different dictionaries *)
-Theorem to_dict_order_refuted :
-  exists a b : csys strG,
-    cs_ok strG a = true /\ cs_ok strG b = true /\ cs_eq strG a b = Some true /\
-    same_order (OCs a) (OCs b) = false /\
-    normalise (cs_to_dict strG a) <> normalise (cs_to_dict strG b).
+(* ==== fixed: C12-HASH-ORDER (ddb8814) ==== *)
+(* the two systems still have different dictionaries, but are encoded identically ... *)
+Example order_fixed_encoding :
+  cs_eq strG sys_cp sys_pc = true /\
+  pyv_same (cs_to_dict strG sys_cp) (cs_to_dict strG sys_pc) = false /\
+  cs_canon strG sys_cp = cs_canon strG sys_pc.
+Proof. repeat split; vm_compute; reflexivity. Qed.
+
+(* ... and the two models get the same key, for every dumps, digest and dataset *)
+Example order_fixed_key :
+  model_eq strG M_cp M_pc = true /\
+  forall (dumps : pyv -> string) (digest : Type) (H : string -> digest) (ds : string),
+    key strG dumps digest H ds M_cp = key strG dumps digest H ds M_pc.
 Proof.
-  exists sys_cp, sys_pc. repeat split; try (vm_compute; reflexivity).
-  apply pyv_same_false. vm_compute. reflexivity.
+  split; [vm_compute; reflexivity|]. intros. apply key_same_dict. vm_compute. reflexivity.
 Qed.
 
-(* hence two models that == calls equal get different keys: for every dumps that separates the
-   two dictionaries and every digest that separates the two inputs (any dataset bytes) *)
-Theorem hash_order_refuted :
-  exists M M' : model strG,
-    model_eq strG M M' = Some true /\ same_order (OModel M) (OModel M') = false /\
-    forall (dumps : pyv -> string) (digest : Type) (H : string -> digest) (ds : string),
-      let d := model_to_dict strG (blank strG M) in let d' := model_to_dict strG (blank strG M') in
-      dumps_sep dumps d d' -> H_sep H (ds ++ dumps d) (ds ++ dumps d') ->
-      key strG dumps digest H ds M <> key strG dumps digest H ds M'.
-Proof.
-  exists M_cp, M_pc. split; [vm_compute; reflexivity|]. split; [vm_compute; reflexivity|].
-  intros dumps digest H ds d d' DS HS. apply key_separates_model; try assumption; try (vm_compute; reflexivity).
-  apply pyv_same_false. vm_compute. reflexivity.
-Qed.
-
-(* the order of the dependent variables leaks the same way *)
+(* ==== open: C12-HASH-DEPVAR-ORDER — the order of the dependent variables still leaks ==== *)
 Definition M_yz : model strG :=
   mkModel strG "m" "" [] no_rvs [] [] no_di "PREDICTION" [("Symbol('Y')", 1%Z); ("Symbol('Z')", 2%Z)]
           [("Symbol('Y')", "Symbol('Y')"); ("Symbol('Z')", "Symbol('Z')")] None.
@@ -71,99 +63,104 @@ Definition M_zy : model strG :=
   mkModel strG "m" "" [] no_rvs [] [] no_di "PREDICTION" [("Symbol('Z')", 2%Z); ("Symbol('Y')", 1%Z)]
           [("Symbol('Z')", "Symbol('Z')"); ("Symbol('Y')", "Symbol('Y')")] None.
 Theorem hash_depvar_order_refuted :
-  model_eq strG M_yz M_zy = Some true /\ same_order (OModel M_yz) (OModel M_zy) = false /\
-  normalise (model_to_dict strG (blank strG M_yz)) <> normalise (model_to_dict strG (blank strG M_zy)).
+  model_eq strG M_yz M_zy = true /\ same_order (OModel M_yz) (OModel M_zy) = false /\
+  forall (dumps : pyv -> string) (digest : Type) (H : string -> digest) (ds : string),
+    let d := model_encode strG (blank strG M_yz) in let d' := model_encode strG (blank strG M_zy) in
+    dumps_sep dumps d d' -> H_sep H (ds ++ dumps d) (ds ++ dumps d') ->
+    key strG dumps digest H ds M_yz <> key strG dumps digest H ds M_zy.
 Proof.
   split; [vm_compute; reflexivity|]. split; [vm_compute; reflexivity|].
+  intros dumps digest H ds d d' DS HS. apply key_separates_model; try assumption.
   apply pyv_same_false. vm_compute. reflexivity.
 Qed.
 
-(* ---- C12-JSON-TUPLE: from_dict keeps JSON lists where the object holds tuples ---- *)
+(* ==== fixed: C12-JSON-TUPLE (cee2988) ==== *)
 Definition joint : dist strG :=
-  DJoint strG (mkJoint strG STuple ["ETA_1"; "ETA_2"] "IIV" "MutableDenseMatrix([[Integer(0)], [Integer(0)]])"
+  DJoint strG (mkJoint strG ["ETA_1"; "ETA_2"] "IIV" "MutableDenseMatrix([[Integer(0)], [Integer(0)]])"
                        "MutableDenseMatrix([[Symbol('O11'), Symbol('O21')], [Symbol('O21'), Symbol('O22')]])").
-Theorem json_names_refuted :
-  exists x : dist strG, passthrough_tuple_free (ODist x) = false /\
-    exists y, dist_from_dict strG (normalise (dist_to_dict strG x)) = Some y /\ dist_eqb strG y x = false.
-Proof. exists joint. split; [reflexivity|]. eexists. split; vm_compute; reflexivity. Qed.
+Example json_names_fixed :
+  dist_from_dict strG (normalise (dist_to_dict strG joint)) = Some joint /\ dist_eqb strG joint joint = true.
+Proof. split; vm_compute; reflexivity. Qed.
 
 Definition est_default : eststep strG :=
   mkEst strG "FOCE" true (Some "SANDWICH") false (Some 99999%Z) false None None None None
-        STuple ["CWRES"; "RES"] STuple ["CIPREDI"; "PRED"] (DStrs strG STuple []) false
+        ["CWRES"; "RES"] ["CIPREDI"; "PRED"] (DStrs strG []) false
         (mkCommon None None (Some (NFloat (FFin (1 # 1000000000000)))) []).
-Theorem json_step_refuted :
-  exists x : step strG, passthrough_tuple_free (OStep x) = false /\ derivs_free (OStep x) = true /\
-    (exists y, step_from_dict strG (step_to_dict strG x) = Some y /\ step_eqb strG y x = true) /\
-    exists y, step_from_dict strG (normalise (step_to_dict strG x)) = Some y /\ step_eqb strG y x = false.
-Proof.
-  exists (StEst strG est_default). split; [reflexivity|]. split; [reflexivity|]. split; eexists; split; vm_compute; reflexivity.
-Qed.
+Example json_step_fixed :
+  step_from_dict strG (normalise (step_to_dict strG (StEst strG est_default))) = Some (StEst strG est_default) /\
+  step_eqb strG (StEst strG est_default) (StEst strG est_default) = true.
+Proof. split; vm_compute; reflexivity. Qed.
 
 Definition col_apgr : column strG :=
-  mkColumn strG "APGR" "covariate" one "ratio" (Some false) (PTuple [PInt 1%Z; PInt 2%Z; PInt 3%Z]) false "float64" None.
-Theorem json_categories_refuted :
-  exists x : column strG, passthrough_tuple_free (OColumn x) = false /\
-    exists y, column_from_dict strG (normalise (column_to_dict strG x)) = Some y /\ column_eqb strG y x = false.
-Proof. exists col_apgr. split; [reflexivity|]. eexists. split; vm_compute; reflexivity. Qed.
+  mkColumn strG "APGR" "covariate" one "ratio" (Some false) (CTuple [PInt 1%Z; PInt 2%Z; PInt 3%Z]) false "float64" None.
+Example json_categories_fixed :
+  column_from_dict strG (normalise (column_to_dict strG col_apgr)) = Some col_apgr /\
+  column_eqb strG col_apgr col_apgr = true.
+Proof. split; vm_compute; reflexivity. Qed.
 
-(* so the generic model code (json.dumps of to_dict; read by json.loads, from_dict) of a model with
-   one default estimation step does not parse back to an equal model *)
-Theorem generic_code_refuted :
-  exists m : model strG, passthrough_tuple_free (OModel m) = false /\
-    exists y, model_from_dict strG (normalise (model_to_dict strG m)) = Some y /\ model_eq strG y m = Some false.
-Proof.
-  exists (model_of [] [StEst strG est_default] no_di None). split; [reflexivity|].
-  eexists. split; vm_compute; reflexivity.
-Qed.
+(* the generic model code of a model with one default estimation step and a categories column
+   parses back to an equal model *)
+Definition M_generic : model strG := model_of [] [StEst strG est_default] (mkDi strG [col_apgr] None "," "-99") None.
+Example generic_code_fixed :
+  model_from_dict strG (normalise (model_to_dict strG M_generic)) = Some (strip strG M_generic) /\
+  model_eq strG (strip strG M_generic) M_generic = true.
+Proof. split; vm_compute; reflexivity. Qed.
 
-(* ---- C12-DERIVATIVES-TEXT: to_dict flattens derivatives to text, from_dict leaves them so ---- *)
+(* ==== open: C12-DERIVATIVES-TEXT ==== *)
 Definition est_deriv : eststep strG :=
   mkEst strG "FOCE" true None false None false None None None None
-        STuple [] STuple [] (DSyms strG [["Symbol('EPS_1')"; "Symbol('ETA_1')"]; ["Symbol('ETA_1')"]]) false
+        [] [] (DSyms strG [["Symbol('EPS_1')"; "Symbol('ETA_1')"]; ["Symbol('ETA_1')"]]) false
         (mkCommon None None None []).
 Theorem derivatives_refuted :
   exists x : step strG, derivs_free (OStep x) = false /\
     exists y, step_from_dict strG (step_to_dict strG x) = Some y /\ step_eqb strG y x = false.
 Proof. exists (StEst strG est_deriv). split; [reflexivity|]. eexists. split; vm_compute; reflexivity. Qed.
 
-(* ---- C12-JSON-INTKEY: int dictionary keys come back as text ---- *)
+(* ==== open: C12-JSON-INTKEY ==== *)
 Definition iie_frame : pyv :=
   PDict [(KStr "ETA_1", PDict [(KInt 1%Z, PFloat (FFin (1 # 8))); (KInt 2%Z, PFloat (FFin (1 # 4)))])].
 Theorem json_intkey_refuted :
-  exists m : model strG, int_key_free (OModel m) = false /\ passthrough_tuple_free (OModel m) = true /\
-    exists y, model_from_dict strG (normalise (model_to_dict strG m)) = Some y /\ model_eq strG y m = Some false.
+  exists m : model strG, int_key_free (OModel m) = false /\ derivs_free (OModel m) = true /\
+    exists y, model_from_dict strG (normalise (model_to_dict strG m)) = Some y /\ model_eq strG y m = false.
 Proof.
   exists (model_of [] [] no_di (Some iie_frame)). split; [reflexivity|]. split; [reflexivity|].
   eexists. split; vm_compute; reflexivity.
 Qed.
 
-(* ---- C12-CATEGORIES-MAPPING: to_dict hands out a frozenmapping, json.dumps refuses it: no key ---- *)
+(* ==== fixed: C12-CATEGORIES-MAPPING (e582408): a mapping is written as a plain dict; the
+   dictionary is JSON, comes back exactly, and the model has a key.  What remains of this witness
+   is its int keys (C12-JSON-INTKEY). ==== *)
 Definition col_sex : column strG :=
   mkColumn strG "SEX" "covariate" one "nominal" (Some false)
-           (PMapping [(KInt 1%Z, PStr "male"); (KInt 2%Z, PStr "female")]) false "float64" None.
-Theorem mapping_refuted :
-  exists m : model strG, jsonable (model_to_dict strG m) = false /\
-    forall (dumps : pyv -> string) (digest : Type) (H : string -> digest) (ds : string),
-      key strG dumps digest H ds m = None.
-Proof.
-  exists (model_of [] [] (mkDi strG [col_sex] None "," "-99") None). split; [reflexivity|].
-  intros. reflexivity.
-Qed.
+           (CMap [(KInt 1%Z, PStr "male"); (KInt 2%Z, PStr "female")]) false "float64" None.
+Example mapping_fixed :
+  column_from_dict strG (column_to_dict strG col_sex) = Some col_sex /\
+  is_json (normalise (column_to_dict strG col_sex)) = true /\
+  int_key_free (OColumn col_sex) = false /\
+  (exists y, column_from_dict strG (normalise (column_to_dict strG col_sex)) = Some y /\ column_eqb strG y col_sex = false).
+Proof. repeat split; try (vm_compute; reflexivity). eexists. split; vm_compute; reflexivity. Qed.
+Definition col_sex_str : column strG :=
+  mkColumn strG "SEX" "covariate" one "nominal" (Some false)
+           (CMap [(KStr "1", PStr "male"); (KStr "2", PStr "female")]) false "float64" None.
+Example mapping_fixed_json :
+  column_from_dict strG (normalise (column_to_dict strG col_sex_str)) = Some col_sex_str.
+Proof. vm_compute. reflexivity. Qed.
 
-(* ---- not findings, but the reasons for two side conditions ---- *)
-(* a NaN bound: the round trip is exact, yet == says False (NaN != NaN) *)
+(* ==== fixed: C05-EQ-RAISES-NO-DOSE (876afb2): == on a system without a dosing compartment ==== *)
+Definition sys_nodose : csys strG :=
+  mkCs strG [(NOut strG, []); (NComp strG periph, [(NOut strG, kel)])] "Symbol('t')".
+Example eq_without_dose_fixed :
+  cs_ok strG sys_nodose = true /\ dosing strG (cs_g strG sys_nodose) = None /\
+  cs_from_dict strG (cs_to_dict strG sys_nodose) = Some sys_nodose /\
+  cs_eq strG sys_nodose sys_nodose = true.
+Proof. repeat split; vm_compute; reflexivity. Qed.
+
+(* ---- not a finding, but the reason for a side condition: a NaN bound (only the plain
+   constructor accepts one since caae827): the round trip is exact, yet == says False ---- *)
 Example nan_bound_unequal :
   let p := mkParameter "X" (NFloat (FFin 1)) (NFloat FNaN) (NFloat FInf) false in
   param_from_dict (param_to_dict p) = Some p /\ param_eqb p p = false /\ param_no_nan p = false.
 Proof. repeat split; reflexivity. Qed.
-
-(* a system without a dosing compartment: == raises (ValueError) even against itself *)
-Definition sys_nodose : csys strG :=
-  mkCs strG [(NOut strG, []); (NComp strG periph, [(NOut strG, kel)])] "Symbol('t')".
-Example eq_raises_without_dose :
-  cs_ok strG sys_nodose = true /\ cs_from_dict strG (cs_to_dict strG sys_nodose) = Some sys_nodose /\
-  cs_eq strG sys_nodose sys_nodose = None.
-Proof. repeat split; vm_compute; reflexivity. Qed.
 
 (* ---- C12-SREPR-DISTRIBUTES: the engine assumption deser (ser e) = Some e is what the real engine
    breaks: symengine keeps (1/2)*(A + B) (here [true]), sympy's srepr is that of A/2 + B/2 and
